@@ -34,7 +34,8 @@ import (
 type c06FamRecorder struct {
 	mu         sync.Mutex
 	writes     [][]byte
-	failWrites int // the next n writes fail (with a "normal close" error: the dialer is not penalised)
+	failWrites int // n writes fail (with a "normal close" error: the dialer is not penalised) ...
+	skipWrites int // ... after this many successful writes of the step
 	failDials  int // the next n dials fail (ENOBUFS: not cached by the endpoint pool)
 	dials      int
 }
@@ -55,8 +56,12 @@ func (c *c06FamConn) WriteTo(b []byte, _ string) (int, error) {
 	c.rec.mu.Lock()
 	defer c.rec.mu.Unlock()
 	if c.rec.failWrites > 0 {
-		c.rec.failWrites--
-		return 0, io.EOF
+		if c.rec.skipWrites > 0 {
+			c.rec.skipWrites--
+		} else {
+			c.rec.failWrites--
+			return 0, io.EOF
+		}
 	}
 	c.rec.writes = append(c.rec.writes, append([]byte(nil), b...))
 	return len(b), nil
@@ -101,6 +106,7 @@ type c06FamStep struct {
 	seals      []*c06Sealed // start relative to the datagram; dead entries already removed
 	dialFails  bool
 	writeFails int
+	writeSkip  int // the failing writes come after this many successful writes of the step
 	conn       int // index of the connection the datagram belongs to (-1: not a QUIC Initial)
 }
 
@@ -190,7 +196,7 @@ func c06RunFam(steps []*c06FamStep) (op, out string, perStep [][][]byte, slow bo
 			}
 			rr := *routingResult
 			rec.mu.Lock()
-			rec.failDials, rec.failWrites = 0, s.writeFails
+			rec.failDials, rec.failWrites, rec.skipWrites = 0, s.writeFails, s.writeSkip
 			if s.dialFails {
 				rec.failDials = 1
 			}
@@ -205,7 +211,7 @@ func c06RunFam(steps []*c06FamStep) (op, out string, perStep [][][]byte, slow bo
 			rec.mu.Lock()
 			now := append([][]byte(nil), rec.writes[seen:]...)
 			seen = len(rec.writes)
-			rec.failDials, rec.failWrites = 0, 0
+			rec.failDials, rec.failWrites, rec.skipWrites = 0, 0, 0
 			rec.mu.Unlock()
 			perStep = append(perStep, now)
 			if len(now) == 0 {
@@ -324,6 +330,11 @@ func TestVerifC06Fam(t *testing.T) {
 				version = c06QuicV2
 			}
 			g.forceDcid, g.forceScid = dcid, scid
+			uncacheable := false
+			if dcid == nil && g.r.Chance(0.12) { // a DCID the session pool cannot key by: length 0 or more than 20
+				g.forceDcid = g.bytes([]int{0, 0, 21, 24}[g.r.Intn(4)])
+				uncacheable = true
+			}
 			var qc *c06QuicCase
 			if g.r.Chance(0.12) && !noSni {
 				hc = g.bigHello(3000)
@@ -332,8 +343,11 @@ func TestVerifC06Fam(t *testing.T) {
 				qc = g.quicCase(hc.h.Handshake(), version)
 			}
 			g.forceDcid, g.forceScid = nil, nil
-			if n := len(qc.oracle[0].dcid); n == 0 || n > 20 || qc.hasClose || (multi && len(qc.datagrams) < 2) {
+			if n := len(qc.oracle[0].dcid); (!uncacheable && (n == 0 || n > 20)) || qc.hasClose || (multi && len(qc.datagrams) < 2) {
 				continue
+			}
+			if uncacheable {
+				g.stats.Inc("fam.conn.uncacheable_dcid")
 			}
 			switch g.r.Intn(8) {
 			case 0:
@@ -474,8 +488,12 @@ func TestVerifC06Fam(t *testing.T) {
 			if !steps[k].dialFails && g.r.Chance(0.08) {
 				cp := *steps[k]
 				cp.writeFails = g.r.Range(1, 2)
+				cp.writeSkip = []int{0, 0, 1, 1, 2, 3, 5}[g.r.Intn(7)] // fail the k-th write of the payload, not only the first
 				steps[k] = &cp
 				g.stats.Inc("fam.write_failure_injected")
+				if cp.writeSkip > 0 {
+					g.stats.Inc("fam.write_failure_after_earlier_writes")
+				}
 			}
 		}
 		if len(steps) > 40 {
